@@ -134,6 +134,11 @@ impl PublicKey {
         if b.len() != 32 {
             return Err(ed25519::Error);
         }
+        // Ideal model of "not every 32-byte string is a curve point" (real ed25519: decompression fails for about half of
+        // them): the strings ending in 0xFF stand for the encodings that are not points. Honest keys never end in 0xFF.
+        if b[31] == 0xFF {
+            return Err(ed25519::Error);
+        }
         let mut a = [0u8; 32];
         a.copy_from_slice(b);
         Ok(PublicKey(a))
